@@ -6,6 +6,7 @@ import FoxModel.Model.Lookup
 import FoxModel.Model.Machine
 import FoxModel.Model.Tree
 import FoxModel.Model.WF
+import FoxModel.Model.InsScan
 /-
   FoxModel.Driver.Ops — line-protocol handler for the `ops` stream: a case is a list of operations on one
   router (registrations, deletions, truncations, readers, lookups); the handler runs it through the executable
@@ -166,10 +167,12 @@ def step (st : St) (op : String) : St :=
     else ({ st with tags := st1.tags }.emit m s).tag "grp-abort"
   | _ => stepBase st op
 
-/-- one step, then the representation invariant is evaluated on the model tree (tag `wf-violated` if it fails) -/
+/-- one step, then the representation invariant - and the grammar shape of every key, the hypothesis of the byte-level
+    theorems `Fox.C02.Bytes.*` - is evaluated on the model tree (tag `wf-violated` if it fails) -/
 def stepChecked (st : St) (op : String) : St :=
   let st' := step st op
-  if wfRoots st'.tree.roots && hostOkRoots st'.tree.roots && patOkRoots st'.tree.roots then st' else st'.tag "wf-violated"
+  if wfRoots st'.tree.roots && hostOkRoots st'.tree.roots && patOkRoots st'.tree.roots
+      && InsScan.fragOkRoots st'.tree.roots then st' else st'.tag "wf-violated"
 
 /-- fields: ["ops", "<op>;<op>;…"] -/
 def handle (fields : List String) : String :=
